@@ -88,25 +88,6 @@ func (a *analysis) calledBefore(r int, e *wevent, t int64) bool {
 	return false
 }
 
-// preRestore: (watch started after the restore) the operation that produced e was over before the
-// restore began, or its version was rolled back by the restore
-func (a *analysis) preRestore(r int, e *wevent) bool {
-	h := a.h
-	if e.Kind == "upsert" {
-		return a.rolledBack(e.It.Ver) || a.wr[r][e.It.Ver].Ret < h.Rest.Call
-	}
-	any := false
-	for _, d := range a.dels[r] {
-		if d.Uid == e.It.Uid && d.Ver == e.It.Ver {
-			any = true
-			if d.Ret >= h.Rest.Call {
-				return false
-			}
-		}
-	}
-	return any
-}
-
 // possiblyPreRestore: the operation that produced e had been called before the restore began
 func (a *analysis) possiblyPreRestore(r int, e *wevent) bool {
 	return a.calledBefore(r, e, a.h.Rest.Call)
@@ -404,8 +385,9 @@ func (a *analysis) watchGen(g *watchGen) {
 	}
 	bound := g.Call
 	for _, o := range h.Gens {
-		if o.Scope.subject() == g.Scope.subject() && o.Call < bound && o.Call > e0 {
-			bound = o.Call
+		// o.Ret > e0: it may have subscribed after the restore even if it was called during it
+		if o.Scope.subject() == g.Scope.subject() && o.Call < bound && o.Ret > e0 {
+			bound = max(o.Call, e0)
 		}
 	}
 	cachedOlder := false
